@@ -215,6 +215,12 @@ type NodeResponse struct {
 // a set of filers.
 func (s *Serf) shouldProcessQuery(filters [][]byte) bool {
 	for _, filter := range filters {
+		// A filter without even a type byte cannot be understood
+		if len(filter) == 0 {
+			s.logger.Printf("[WARN] serf: query has an empty filter")
+			return false
+		}
+
 		switch filterType(filter[0]) {
 		case filterNodeType:
 			// Decode the filter
